@@ -103,6 +103,18 @@ def cases(rng, tier):
                     # cannot be cast back into the array's dtype is refused and nothing changes
                     q = dict(p, side="right", inplace=True, derived=None, vseed=rng.randint(0, 999))
                     out.append(q)
+    # comparison ufuncs / operators on two ragged arrays with the SAME NUMBER OF ROWS but other row lengths: refused like every other ufunc
+    for _ in range(80 if tier == "quick" else 800):
+        lens = [rng.randint(0, 4) for _ in range(rng.randint(1, 5))]
+        other = list(lens); j = rng.randrange(len(lens)); other[j] += rng.choice([1, 2])
+        if len(lens) > 1 and rng.random() < 0.6:
+            j2 = (j + 1) % len(lens)
+            other[j2] = max(0, other[j2] - 1) if other[j2] else other[j2] + 1
+        if other == lens:
+            other[j] += 1
+        dt = rng.choice(["int64", "float64", "int8", "bool"])
+        out.append({"lens": lens, "kind": "ragged_bad", "side": rng.choice(["left", "right"]), "uf": rng.choice(["equal", "not_equal", "equal", "not_equal", "less", "greater_equal"]),
+                    "dta": dt, "dtb": dt, "vseed": rng.randint(0, 999), "derived": None, "vmode": "small", "other": other})
     # ONE row (the column has one entry, which numpy-style broadcasting treats specially), operands of the same dtype (the result
     # could be written into an operand): nothing but the result may change
     for _ in range(60 if tier == "quick" else 600):
@@ -233,6 +245,9 @@ def run_impl(p):
                         raise AssertionError("the in-place form returned another object")
                 else:
                     res = uf(ra, x, **kw) if p["side"] == "right" else uf(x, ra, **kw)
+        if not isinstance(res, RaggedArray):
+            # an answer that is not a ragged array (a bare bool, NotImplemented, ...) is an answer, not a refusal
+            return {"k": "obs", "result": {"k": "other", "v": "not a RaggedArray: " + type(res).__name__ + " " + repr(res)[:40]}, "lengths": canon([]), "operands_unmodified": canon(True)}
         o = {"k": "obs", "result": canon(res), "lengths": canon([int(v) for v in res.lengths])}
         same_a = bool(p.get("inplace")) or bool(np.array_equal(ra.ravel().view(np.uint8), a.view(np.uint8)))
         same_x = True
